@@ -70,6 +70,9 @@ def contains_persistent_id(id_: int, entities: Iterable[PersistableEntity]) -> b
     return any(id_ == entity.persistent_id for entity in entities)
 
 
+_ENV_VALUE_ESCAPES = str.maketrans({"\\": "\\\\", '"': '\\"', "$": "\\$", "`": "\\`"})
+
+
 def create_command(
     class_name: str,
     command: MutableSequence[str],
@@ -111,10 +114,13 @@ def create_command(
         )
     # Build command
     return "".join("{workdir}{environment}{command}{stdin}{stdout}{stderr}").format(
-        workdir=f"cd {workdir} && " if workdir is not None else "",
+        workdir=f"cd {shlex.quote(workdir)} && " if workdir is not None else "",
         environment=(
             "".join(
-                [f'export {key}="{value}" && ' for (key, value) in environment.items()]
+                [
+                    f'export {key}="{escape_env_value(value)}" && '
+                    for (key, value) in environment.items()
+                ]
             )
             if environment is not None
             else ""
@@ -124,6 +130,11 @@ def create_command(
         stdout=stdout,
         stderr=stderr,
     )
+
+
+def escape_env_value(value: str) -> str:
+    # Escape the characters that are still interpreted by the shell inside double quotes
+    return str(value).translate(_ENV_VALUE_ESCAPES)
 
 
 def get_job_step_name(job_name: str) -> str:
